@@ -151,6 +151,38 @@ def scheduledPrepRows (preps : List (List K)) (lanes kmax : Nat) (sched : List S
       | none => List.replicate (extraPrepWidth kmax) 0
     cells.flatMap (·.1) ++ extra
 
+/-- The four interactions of one (unscheduled) op row. -/
+def opInters (p : List K) : List (K × K) :=
+  [(vget p 5, vget p 0 * vget p 11), (vget p 6, vget p 9), (vget p 7, vget p 0 * vget p 12),
+   (vget p 8, vget p 10)]
+
+/-- Interactions contributed by one scheduled entry. -/
+def entryInters (preps : List (List K)) : SchedEntry → List (K × K)
+  | .sep => []
+  | .op i => opInters (prepOf preps i)
+  | .packed f k =>
+    let p0 := prepOf preps f
+    let pl := prepOf preps (f + k - 1)
+    [(vget p0 5, vget p0 0 * vget p0 11),
+     (vget p0 6, ((List.range k).map fun t => vget (prepOf preps (f + t)) 9).sum),
+     (vget p0 7, vget p0 0 * vget p0 12),
+     (vget pl 8, vget pl 10)] ++
+    (List.range (k - 1)).flatMap fun t0 =>
+      let p := prepOf preps (f + (t0 + 1))
+      [(vget p 5, vget p0 0 * vget p 11), (vget p 7, vget p0 0 * vget p 12)]
+
+/-- Ops covered by an entry. -/
+def entryOps : SchedEntry → List Nat
+  | .sep => []
+  | .op i => [i]
+  | .packed f k => (List.range k).map (f + ·)
+
+
+/-- `(index, multiplicity)` of every interaction of a scheduled preprocessed row, as the ALU table
+declares them (`aluInteractions`, values dropped). -/
+def rowIdxMults (lanes kmax : Nat) (pl : List K) : List (K × K) :=
+  (aluInteractions 1 lanes kmax ([] : List K) pl).map fun im => (im.1.headD 0, im.2)
+
 end
 
 end P3R
